@@ -8,6 +8,7 @@ CONSTANTS
   RSizes = {"one", "small", "big"}
   Concurrent = FALSE
   AtomicFrames = TRUE
+  LimitOnlyOnReaderPath = FALSE
   Gen = TRUE
   Emit = TRUE
 INIT Init
